@@ -72,6 +72,10 @@ pub struct Case {
     /// the driver calls `read` once more before it takes a completed fragment (as a session that retained it would)
     #[serde(default)]
     pub hold: bool,
+    /// session change: the connection ends after this many per-mille of the frames (in the middle of a fragment, more often than
+    /// not), the reader is reset as the tasks do at the start of every session, and the rest arrives on a new connection
+    #[serde(default)]
+    pub session_cut: Option<u16>,
 }
 
 pub struct TransScenario;
@@ -239,6 +243,7 @@ impl Scenario for TransScenario {
             cuts,
             cancel_after,
             hold: rng.chance(1, 3),
+            session_cut: if rng.chance(1, 5) { Some(rng.range(1, 999) as u16) } else { None },
         }
     }
 
@@ -573,21 +578,40 @@ async fn drive(sim: &kernel::Sim, case: &Case) -> RunResult {
         }
     }
     let stream: Vec<u8> = frames.concat();
+    // where the first connection ends (a frame boundary; without the cancellation fault only)
+    let session_cut: Option<usize> = match case.session_cut {
+        Some(pm) if case.cancel_after.is_empty() && frames.len() >= 2 => {
+            let k = (frames.len() * pm as usize / 1000).clamp(1, frames.len() - 1);
+            Some(frames[..k].iter().map(|f| f.len()).sum())
+        }
+        _ => None,
+    };
+    if session_cut.is_some() {
+        counters.push(("fault.session_change_mid_stream", 1));
+        fault_fired = true;
+    }
 
-    // 4. reference: deframe, link filter, reassemble
+    // 4. reference: deframe, link filter, reassemble - every session on its own, nothing carried over
     let discard = !case.close_mode;
-    let deframed = reflink::deframe(&stream, discard);
     let mut reasm = reftr::Reassembler::new(case.rx_buffer);
     let mut expected: Vec<(u16, Vec<u8>)> = Vec::new();
-    for (_, fr) in &deframed.frames {
-        // link filter for what this scenario can produce: unconfirmed user data from the opposite
-        // station type, addressed to the reader, from an endpoint address
-        if fr.ctrl != sender_ctrl || fr.dest != case.reader_addr || fr.src >= 0xFFF0 {
-            continue;
-        }
-        if let Some(seg) = reftr::Segment::parse(&fr.payload) {
-            if let Some(done) = reasm.push(fr.src, &seg) {
-                expected.push(done);
+    let parts: Vec<&[u8]> = match session_cut {
+        Some(k) => vec![&stream[..k], &stream[k..]],
+        None => vec![&stream[..]],
+    };
+    for part in parts {
+        reasm.reset();
+        let deframed = reflink::deframe(part, discard);
+        for (_, fr) in &deframed.frames {
+            // link filter for what this scenario can produce: unconfirmed user data from the opposite
+            // station type, addressed to the reader, from an endpoint address
+            if fr.ctrl != sender_ctrl || fr.dest != case.reader_addr || fr.src >= 0xFFF0 {
+                continue;
+            }
+            if let Some(seg) = reftr::Segment::parse(&fr.payload) {
+                if let Some(done) = reasm.push(fr.src, &seg) {
+                    expected.push(done);
+                }
             }
         }
     }
@@ -599,6 +623,10 @@ async fn drive(sim: &kernel::Sim, case: &Case) -> RunResult {
     let cancelling = !case.cancel_after.is_empty();
     let sock = SimSocket::new("reader", inbox.clone(), io::new_chan(), ChunkMode::All, 0)
         .with_plan(if cancelling { Vec::new() } else { case.cuts.clone() });
+    let inbox2 = io::new_chan();
+    let sock2 = session_cut.map(|_| {
+        SimSocket::new("reader-2", inbox2.clone(), io::new_chan(), ChunkMode::All, 0).with_plan(case.cuts.clone())
+    });
     let cancel = Arc::new(tokio::sync::Notify::new());
     let cancel2 = cancel.clone();
     let modes = LinkModes {
@@ -620,6 +648,7 @@ async fn drive(sim: &kernel::Sim, case: &Case) -> RunResult {
         } else {
             Reader::outstation(modes, reader_addr, Feature::Disabled, rx_buffer)
         };
+        let mut next_session = sock2;
         loop {
             let res = tokio::select! {
                 biased;
@@ -664,7 +693,14 @@ async fn drive(sim: &kernel::Sim, case: &Case) -> RunResult {
                         }
                     }
                 }
-                Err(_) => break,
+                Err(_) => match next_session.take() {
+                    Some(s2) => {
+                        // the session is over: the task resets its reader and runs the next one on the new connection
+                        reader.reset();
+                        phys = PhysLayer::Sim(Box::new(s2));
+                    }
+                    None => break,
+                },
             }
         }
     });
@@ -683,6 +719,10 @@ async fn drive(sim: &kernel::Sim, case: &Case) -> RunResult {
             }
             k += 1;
         }
+    } else if let Some(k) = session_cut {
+        io::chan_push(&inbox, 0, stream[..k].to_vec());
+        io::chan_push(&inbox2, 0, stream[k..].to_vec());
+        io::chan_close(&inbox2, CloseKind::Eof);
     } else {
         io::chan_push(&inbox, 0, stream.clone());
     }
